@@ -217,4 +217,6 @@ def rand_composite(rng, path_mode, max_inc=4, max_exc=3):
         c.flags.add('GLOBSTAR')
     if path_mode and rng.random() < 0.2:
         c.flags.add('NODIR')
+    if path_mode and rng.random() < 0.2:
+        c.flags.add('MATCHBASE')     # decided per expanded pattern: a slash-less single keeps its implicit prefix next to slashed ones
     return c
